@@ -63,6 +63,9 @@ mod idxnewtype;
 pub mod markmap;
 pub mod newlinecache;
 pub mod span;
+#[cfg(grmtools_verif)]
+#[doc(hidden)]
+pub mod verif;
 pub mod yacc;
 
 pub use newlinecache::NewlineCache;
